@@ -351,3 +351,25 @@ Example C10_analytic_nonvacuous :
         (bmmul Z Z.add Z.mul (bdiag Z 0%Z D D) (bdiag Z 0%Z (W Z Z.mul (-1)%Z V D) (W Z Z.mul (-1)%Z V D)))
       = bdiag Z 0%Z (-1)%Z (-1)%Z).
 Proof. split; [exact F5_ring | repeat split; reflexivity]. Qed.
+
+(* MGDPass: the location handed to the target-last multiplexor decomposition, for a target
+   at ANY position t of the gate: target last, select qudits in their original relative
+   order, a permutation of the location.  The cyclic rotation coincides with it only for a
+   first or last target and permutes the selects in between (seeded change C10-A). *)
+Theorem C10_mgd_location : forall t loc, t < length loc ->
+  removelast (mgd_loc t loc) = selects t loc /\ last (mgd_loc t loc) O = nth t loc O
+  /\ Permutation.Permutation loc (mgd_loc t loc).
+Proof. exact mgd_loc_spec. Qed.
+Theorem C10_mgd_rotation_only_at_the_ends :
+  (forall loc, loc <> [] -> rot_loc 0 loc = mgd_loc 0 loc)
+  /\ (forall loc, loc <> [] -> rot_loc (length loc - 1) loc = mgd_loc (length loc - 1) loc)
+  /\ removelast (rot_loc 1 [7; 8; 9]) <> selects 1 [7; 8; 9].
+Proof. exact (conj rot_loc_first (conj rot_loc_last rot_loc_middle_refuted)). Qed.
+(* one level of the decomposition, on each branch of the first select qudit: the emitted
+   R(l); CNOT; R(r); CNOT acts as R(l+r) resp. R(l-r) (R = RY or RZ, X R(a) X = R(-a)) *)
+Theorem C10_multiplexor_branches : forall (M : Type) (mul : M -> M -> M) (one X : M) (R : Z -> M),
+  (forall x y z, mul x (mul y z) = mul (mul x y) z) ->
+  (forall a b, mul (R a) (R b) = R (a + b)%Z) ->
+  (forall a, mul X (mul (R a) X) = R (- a)%Z) ->
+  forall l r, mul (R r) (R l) = R (l + r)%Z /\ mul X (mul (R r) (mul X (R l))) = R (l - r)%Z.
+Proof. intros M mul one X R A B C l r. exact (conj (mpx_branch0 M mul R B l r) (mpx_branch1 M mul X R A B C l r)). Qed.
